@@ -830,7 +830,10 @@ def run(s):
 
     def l3_covariance():
         n = 0
-        fields = [[[0.2, 0.3, 0.5], [0.25, 0.35, 0.4]], [[0.1, 0.1, 0.8], [0.3, 0.3, 0.4]], [[0.6, 0.3, 0.1], [0.5, 0.2, 0.3]]]
+        # generic fields and fields with special structure a data-dependent shortcut could key on: the same anisotropic triple at every volume, a first row that is
+        # isotropic while later rows are not, two axes equal, nearly cubic
+        fields = [[[0.2, 0.3, 0.5], [0.25, 0.35, 0.4]], [[0.1, 0.1, 0.8], [0.3, 0.3, 0.4]], [[0.6, 0.3, 0.1], [0.5, 0.2, 0.3]],
+                  [[0.2, 0.3, 0.5], [0.2, 0.3, 0.5]], [[1 / 3, 1 / 3, 1 / 3], [0.3, 0.32, 0.38]], [[0.3331, 0.3334, 0.3335], [0.3329, 0.3334, 0.3337]]]
         if tier == "thorough":
             for _ in range(10):
                 fields.append([[rnd.uniform(0.05, 0.9) for _ in range(3)] for _ in range(2)])
